@@ -317,6 +317,13 @@ pub fn run(p: &Params) -> (Stats, &'static str) {
         for (j, t_s) in [0u64, 5, 60].into_iter().enumerate() {
             one(&mut st, mix(base, 900 + j as u64), 0, t_s, Script::Never, false, if j == 2 { 1500 } else { 0 });
         }
+        // interval on, timeout switched off: a Ping every I, never a timeout, whatever the peer does
+        for (j, i_s) in [1u64, 5].into_iter().enumerate() {
+            for (k, script) in [Script::Never, Script::Always { d_ms: i_s * 1500 }, Script::Rounds { k: 2, d_ms: 10 }].into_iter().enumerate() {
+                one(&mut st, mix(base, 920 + (j * 3 + k) as u64), i_s, 0, script, false, 0);
+                st.target("timeout_disabled_runs", 1);
+            }
+        }
         for (j, (i_s, t_s)) in [(5u64, 2u64), (2, 5), (10, 1)].into_iter().enumerate() {
             one(&mut st, mix(base, 950 + j as u64), i_s, t_s, Script::Never, true, 0);
         }
